@@ -5,7 +5,8 @@
    Coherence of the cached listing with the hash tables over histories is judged by the extracted decoder
    (Spec/Decode.v: cache_chain, crecs_agree) and by comparing listings served from the cache with the reference model. *)
 From Coq Require Import ZArith List Bool Lia.
-From ADF Require Import CPrelude Generated.Leaf Proofs.CacheCodecP.
+From Coq Require Import Permutation.
+From ADF Require Import CPrelude Generated.Leaf Proofs.CacheCodecP Model.CacheChain Proofs.CacheChainP.
 Import ListNotations.
 Local Open Scope Z_scope.
 
@@ -78,7 +79,37 @@ Example C07_codec_example :
     = (0, 70, 883, 4096, 15, 7000, 60, 49, -3, 3, [97; 98; 99] ++ repeat 0 28, 2, [104; 105] ++ repeat 0 78).
 Proof. vm_compute. split; reflexivity. Qed.
 
+(* ---- the chain of cache blocks of a directory (Model/CacheChain.v: adfAddInCache / adfDelFromCache / adfUpdateCache at the level
+   of whole records; tied to adf_cache.c by the block-level correspondence of checks/cachecorr.py) refines a plain list of
+   records keyed by the entry's header block, for every history.  Inv = at least one block, every block within the 488-byte
+   area, only the first block may be empty, block numbers distinct, one record per entry. ---- *)
+Theorem C07_cache_add : forall c r nb, CacheChainP.Inv c -> ~ In (r_key r) (map r_key (recs c)) -> (r_len r <= AREA)%nat -> ~ In nb (map fst c) ->
+  CacheChainP.Inv (c_add c r nb) /\ recs (c_add c r nb) = (recs c ++ [r])%list.
+Proof. exact add_refines. Qed.
+
+Theorem C07_cache_delete : forall c k, CacheChainP.Inv c ->
+  let '(c', fr) := c_del c k in
+  CacheChainP.Inv c' /\ recs c' = remove_key k (recs c) /\ Permutation (map fst c' ++ fr) (map fst c) /\
+  ~ In k (map r_key (recs c')) /\ (length fr <= 1)%nat.
+Proof. exact del_refines. Qed.
+
+Theorem C07_cache_update : forall c r' nb, CacheChainP.Inv c -> In (r_key r') (map r_key (recs c)) -> (r_len r' <= AREA)%nat -> ~ In nb (map fst c) ->
+  let '(c', fr) := c_update c r' nb in
+  CacheChainP.Inv c' /\ Permutation (recs c') (r' :: remove_key (r_key r') (recs c)) /\
+  (forall b, In b (map fst c' ++ fr) -> In b (nb :: map fst c)) /\ (length fr <= 1)%nat.
+Proof. exact update_refines. Qed.
+
+Example C07_cache_example :
+  let r k l := {| r_key := k; r_len := l; r_body := [] |} in
+  let c1 := c_add (c_add (c_add [(881, [])] (r 900 40%nat) 0) (r 901 440%nat) 0) (r 902 40%nat) 950 in
+  map fst c1 = [881; 950] /\ map r_key (recs (fst (c_del c1 902))) = [900; 901] /\ snd (c_del c1 902) = [950] /\
+  map r_key (recs (fst (c_update c1 (r 900 60%nat) 951))) = [901; 902; 900].
+Proof. vm_compute. repeat split; reflexivity. Qed.
+
 Print Assumptions C07_record_length.
+Print Assumptions C07_cache_add.
+Print Assumptions C07_cache_delete.
+Print Assumptions C07_cache_update.
 Print Assumptions C07_codec_roundtrip.
 Print Assumptions C07_codec_frame.
 Print Assumptions C07_reader_stays_inside.
